@@ -115,9 +115,18 @@ def shapes(shape: str, with_hash: bool = False):
                     return False
             return got == exp and rev == exp and refl and ne == (not exp) and B.IGNORE_FIELDS_FOR_COMPARISON == set()
         if shape == "nested":
+            # the configuration reaches nested records too (they are compared and hashed as records)
             a = H(IN(v1, _generated=GEN), [IN(w1, _generated=GEN)], _generated=GEN)
             b = H(IN(v2, _generated=GEN), [IN(w2, _generated=GEN)], _generated=GEN)
-            exp = v1 == v2 and w1 == w2
+            exp = ign_v or (v1 == v2 and w1 == w2)
+            with B.ignore_fields_for_comparison({"v"} if ign_v else set()):
+                got = a == b
+                rev = b == a
+                refl = a == a
+                ne = a != b
+                if with_hash and got and hash(a) != hash(b):
+                    return False
+            return got == exp and rev == exp and refl and ne == (not exp) and B.IGNORE_FIELDS_FOR_COMPARISON == set()
         elif shape == "list":
             la = [] if n1 == 0 else ([v1] if n1 == 1 else [v1, w1])
             lb = [] if n2 == 0 else ([v2] if n2 == 1 else [v2, w2])
@@ -349,4 +358,17 @@ def replay(res):
     with B.ignore_fields_for_comparison({"_generated"}):
         expect(lambda: g2 == g5 and hash(g2) == hash(g5) and len({g2, g5}) == 1, "a grouped record and its rebuilt copy differ under ignore {_generated}")
     expect(lambda: not (g2 == g3) and not (g2 == g5), "without the configuration the differing grouped records compare equal")
+    # ... and to nested records (record and record[] fields)
+    IN = RecordDescriptor("t/in", [("varint", "v")])
+    H = RecordDescriptor("t/h", [("record", "inner"), ("record[]", "many")])
+    h1 = H(IN(1, _generated=GEN), [IN(2, _generated=GEN)], _generated=GEN)
+    h2 = H(IN(7, _generated=GEN), [IN(8, _generated=GEN)], _generated=GEN)
+    h3 = H(IN(1, _generated=other_gen), [IN(2, _generated=other_gen)], _generated=GEN)
+    h1b = H(IN(1, _generated=GEN), [IN(2, _generated=GEN)], _generated=GEN)
+    expect(lambda: h1 == h1b and hash(h1) == hash(h1b), "a record with nested records and its rebuilt copy are unequal / hash differently")
+    with B.ignore_fields_for_comparison({"v"}):
+        expect(lambda: h1 == h2 and hash(h1) == hash(h2) and len({h1, h2}) == 1, "records whose nested records differ only in an ignored field are unequal / hash differently")
+    with B.ignore_fields_for_comparison({"_generated"}):
+        expect(lambda: h1 == h3 and hash(h1) == hash(h3) and len({h1, h3}) == 1, "records whose nested records differ only in the ignored _generated are unequal / hash differently")
+    expect(lambda: not (h1 == h2) and not (h1 == h3), "without the configuration records with different nested records compare equal")
     return {"reproduced": bool(probs), "key": f"C12/{gid.split('/')[1]}", "what": "; ".join(probs[:2]), "input": {}}
